@@ -232,18 +232,23 @@ Lemma heap_init_shape c : hcfg_ok c ->
   ha_heap_init c = HOk (mkhastate true [mkchunk (heap_start c) (heap_end c - heap_start c - NODE) false]
                           (bins_add empty_bins (heap_end c - heap_start c - NODE) (heap_start c))).
 Proof.
-  intros (HB & Hfit & Hmin). unfold ha_heap_init, heap_end. unfold heap_start.
+  intros (HB & Hfit & Hsz0 & Hmin). unfold ha_heap_init, heap_end. unfold heap_start in *.
   pose proof NODE_eq as HN. pose proof MIN_range as HMINR. pose proof ALIGN_eq as HA. pose proof MIN_range as HMr. rewrite HN, HA in *.
   assert (H64 : two64 = 18446744073709551616) by reflexivity.
   destruct (align_forward_spec (h_base c) 16 ltac:(exists 4; split; [lia | reflexivity]) ltac:(lia) ltac:(lia)) as [Hr Hm].
   set (hs := align_forward (h_base c) 16) in *.
   rewrite (w64_small (hs - h_base c)) by lia.
-  rewrite (w64_small (hs - h_base c + 32)) by lia.
-  assert (E : (h_size c <? hs - h_base c + 32) = false) by (apply Z.ltb_ge; lia). rewrite E.
+  change (2 * 32) with 64. rewrite (w64_small 64) by lia.
+  rewrite (w64_small (hs - h_base c + 64)) by lia.
+  assert (E : (h_size c <? hs - h_base c + 64) = false) by (apply Z.ltb_ge; lia). rewrite E.
   rewrite (w64_small (h_size c - (hs - h_base c))) by lia.
   rewrite (w64_small (h_size c - (hs - h_base c) - 32)) by lia.
-  rewrite (w64_small (h_size c - (hs - h_base c) - 32 - 32)) by lia.
-  replace (hs + (h_size c - (hs - h_base c) - 32) - hs - 32) with (h_size c - (hs - h_base c) - 32 - 32) by lia.
+  rewrite (align_down16 (h_size c - (hs - h_base c) - 32)) by lia.
+  set (X := h_size c - (hs - h_base c) - 32) in *.
+  pose proof (Z.mod_pos_bound X 16 ltac:(lia)) as HXm.
+  assert (HX32 : 32 <= X - X mod 16) by (unfold X in *; Z.div_mod_to_equations; lia).
+  rewrite (w64_small (X - X mod 16 - 32)) by lia.
+  replace (hs + (X - X mod 16) - hs - 32) with (X - X mod 16 - 32) by lia.
   reflexivity.
 Qed.
 
@@ -343,9 +348,7 @@ Proof.
   { rewrite Forall_forall. intros x Hx. destruct (c_used x) eqn:E; [|reflexivity]. destruct (Hcomp x Hx E). }
   pose proof (all_free_single _ _ Hnaf Hfree) as Hlen.
   assert (Hlt : heap_start c < heap_end c).
-  { destruct Hc as (HB & Hfit & Hmin). pose proof MIN_range as HMr. unfold heap_end in *. unfold heap_start in *. rewrite HN, ALIGN_eq in *.
-    assert (H64 : two64 = 18446744073709551616) by reflexivity.
-    destruct (align_forward_spec (h_base c) 16 ltac:(exists 4; split; [lia | reflexivity]) ltac:(lia) ltac:(lia)) as [Hr _]. lia. }
+  { destruct (heap_geometry c Hc) as (_ & _ & _ & G4 & _). lia. }
   destruct (ha_chunks s) as [|x [|y r]] eqn:Ech; cbn in Hlen; try lia.
   { cbn in Ht. lia. }
   cbn [tiled] in Ht. destruct Ht as (Hxa & Hxs & Hend).
